@@ -6,7 +6,7 @@ from . import inv, plt, runner
 from .model import short
 from .rules_c09 import site_ord
 from .rules_common import LP, each_final, ep, get, opt_payload
-from .values import CollV, EnumV, NumV, OpaqueV, RefV, StrV, StructV, symname
+from .values import BoolV, CollV, EnumV, NumV, OpaqueV, RefV, StrV, StructV, symname
 
 ROW_MAP = 'std::collections::HashMap<u32, std::collections::HashMap<u32, screen::CharOpts>>'
 CELL_MAP = 'std::collections::HashMap<u32, screen::CharOpts>'
@@ -153,6 +153,130 @@ def row_of_path(p):
 
 
 # ---------------------------------------------------------------------------
+# value comparison against the code's own blank (default_char()) and against the cursor rendition
+FLAGS = ('bold', 'italics', 'underscore', 'strikethrough', 'reverse', 'blink')
+DEFAULT_CHAR = 'screen::Screen::default_char'
+
+
+def same_value(eng, s, a, b):
+    """are abstract values a and b the same value in state s (field-wise for structs)"""
+    if isinstance(a, RefV) or isinstance(b, RefV):
+        return a.key() == b.key()
+    if isinstance(a, StructV) and isinstance(b, StructV):
+        if a.ty != b.ty:
+            return False
+        if not a.fields and not b.fields:
+            return a.key() == b.key()
+        names = set(a.fields) | set(b.fields)
+        for n in names:
+            x, y = a.fields.get(n), b.fields.get(n)
+            if x is None or y is None:
+                return False
+            if not same_value(eng, s, x, y):
+                return False
+        return True
+    if isinstance(a, BoolV) and isinstance(b, BoolV):
+        ta, tb = eng.eval_bool(s, a), eng.eval_bool(s, b)
+        if ta is not None and tb is not None:
+            return ta == tb
+        return a.key() == b.key()
+    if isinstance(a, NumV) and isinstance(b, NumV):
+        return eng.prove_cmp(s, 'eq', a, b) is True
+    if isinstance(a, StrV) and isinstance(b, StrV):
+        ka = a.known if a.known is not None else (s.vn.get(('strval', a.oid)) if a.oid is not None else None)
+        kb = b.known if b.known is not None else (s.vn.get(('strval', b.oid)) if b.oid is not None else None)
+        if ka is not None and kb is not None:
+            return ka == kb
+        return a.oid is not None and a.oid == b.oid
+    if type(a) is not type(b):
+        return False
+    return a.key() == b.key()
+
+
+def full_cell(eng, s, v):
+    """CharOpts value with every flag field present (absent flag fields of a partially known struct
+    are unknown, so they are left out and compare unequal to anything but themselves)"""
+    return v
+
+
+def is_default_char(eng, st, v):
+    """is v the value `default_char()` returns in state st (the function's own body is the reference;
+    its correctness is instance `default_char is the canonical blank`)"""
+    if not isinstance(v, StructV):
+        return False, 'not a cell value: %r' % (v,)
+    pv = getattr(v, 'prov', None)
+    if isinstance(pv, tuple) and pv[:2] == ('literal', DEFAULT_CHAR):
+        return True, ''
+    if DEFAULT_CHAR not in eng.prog.bodies:
+        return False, 'Screen::default_char not found'
+    s = st.fork()
+    hooks, eh = eng.hooks, eng.event_hook
+    eng.hooks, eng.event_hook = [], None
+    try:
+        res = eng.exec_body(s, DEFAULT_CHAR, [RefV((inv.S_ROOT, ()), False)])
+    except Exception as ex:      # fail closed
+        return False, 'default_char() could not be evaluated: %s' % ex
+    finally:
+        eng.hooks, eng.event_hook = hooks, eh
+    if not res:
+        return False, 'default_char() has no exit'
+    for (s2, r) in res:
+        if not (isinstance(r, StructV) and same_value(eng, s2, v, r)):
+            return False, '%r (built in %s) differs from %r' % (v, pv[1] if isinstance(pv, tuple) and len(pv) > 1 else pv, r)
+    return True, ''
+
+
+def is_cursor_attr(eng, st, v):
+    pv = getattr(v, 'prov', None)
+    if isinstance(pv, tuple) and pv == ('cursor.attr',):
+        return True
+    cur = get(eng, st, 'cursor', 'attr')
+    return isinstance(v, StructV) and isinstance(cur, StructV) and bool(cur.fields) and set(v.fields) == set(cur.fields) and same_value(eng, st, v, cur)
+
+
+def default_char_canonical(ctx, chk, rule='R-ABSENT'):
+    """default_char() itself: data ' ', fg/bg 'default', flags off, reverse == (DECSCNM in mode);
+    decided on exactly known mode sets"""
+    from .engine import Engine, State
+    prog = ctx.prog
+    bad = []
+    n = 0
+    for modes in ((), (160,), (32, 160, 224), (32,), (4, 20, 192, 224, 800)):
+        eng = Engine(prog, ctx.eff, config=dict(max_steps=50000, check_inv=False))
+        st = State()
+        inv.screen_init(eng, st)
+        scr = st.store[inv.S_ROOT]
+        st.store[inv.S_ROOT] = scr.with_field('mode', CollV('set', 'std::collections::HashSet<u32>', 'md', known=tuple(NumV(None, m, 'u32') for m in modes)))
+        try:
+            res = eng.exec_body(st, DEFAULT_CHAR, [RefV((inv.S_ROOT, ()), False)])
+        except Exception as ex:
+            bad.append('mode %s: %s' % (list(modes), ex))
+            continue
+        for (s2, r) in res:
+            n += 1
+            if not isinstance(r, StructV):
+                bad.append('mode %s: returns %r' % (list(modes), r))
+                continue
+            want = {'data': ' ', 'fg': 'default', 'bg': 'default'}
+            for k, w in want.items():
+                x = r.fields.get(k)
+                if not (isinstance(x, StrV) and x.known == w):
+                    bad.append('mode %s: %s is %r, documented %r' % (list(modes), k, x, w))
+            for k in FLAGS:
+                x = r.fields.get(k)
+                w = (160 in modes) if k == 'reverse' else False
+                t = eng.eval_bool(s2, x) if isinstance(x, BoolV) else None
+                if t is not w:
+                    bad.append('mode %s: %s is %r, documented %s' % (list(modes), k, x, w))
+        if eng.summ.unknown_seen:
+            bad.append('unmodelled callee in default_char: %s' % sorted(eng.summ.unknown_seen))
+    body = prog.bodies.get(DEFAULT_CHAR)
+    chk.instance(rule, 'Screen::default_char', 'default_char is the canonical blank', n > 0 and not bad,
+                 detail='; '.join(bad[:3]) or '%d exit states over 5 mode sets: space, default colours, flags off, reverse iff DECSCNM' % n,
+                 span=body.span if body else None, what='default_char() is not the documented blank: ' + '; '.join(bad[:2]))
+
+
+# ---------------------------------------------------------------------------
 # R-ABSENT
 def r_absent(ctx, chk, funcs, rule='R-ABSENT'):
     """(a) every materialisation `entry(k).or_insert*(v)` on the grid inserts the canonical default
@@ -161,6 +285,7 @@ def r_absent(ctx, chk, funcs, rule='R-ABSENT'):
     sr = ctx.screen_run()
     eng = sr['engine']
     prog = ctx.prog
+    default_char_canonical(ctx, chk, rule)
     # (a)
     sites = {}
     for e in sr['events']:
@@ -175,9 +300,8 @@ def r_absent(ctx, chk, funcs, rule='R-ABSENT'):
             ok = isinstance(v, CollV) and v.known == ()
             why = 'materialises %r' % (v,)
         else:
-            pv = getattr(v, 'prov', None)
-            ok = isinstance(v, StructV) and isinstance(pv, tuple) and pv[0] == 'literal' and pv[1] == 'screen::Screen::default_char'
-            why = 'materialises a cell built by %s (canonical: default_char(), which follows the DECSCNM state)' % (pv[1] if isinstance(pv, tuple) and len(pv) > 1 else pv,)
+            ok, why0 = is_default_char(eng, e['st'], v)
+            why = 'materialises a cell that is not default_char() (which follows the DECSCNM state): %s' % why0
         k = (short(e['func']), 'materialise %s @%s' % (lvl, site_ord(prog, e)))
         a = sites.setdefault(k, dict(ok=True, why=why, span=e['span'], n=0))
         a['n'] += 1
